@@ -1116,3 +1116,36 @@ def simultaneous_cases(durs_a=(1, 2, 3), durs_b=(1, 2)) -> List[dict]:
                                                    "files": [{"name": "a.txt", "health": "GOOD"}, {"name": "b.txt", "health": "COMPROMISED"}]}],
                                       "ops": ops, "family": f"simultaneous:{a}+{b_}", "delta": delta})
     return cases
+
+
+# ------------------------------------------------------------------------------------------ same-named deleted items, restore by name
+def twin_restore_cases() -> List[dict]:
+    """Two (three) deleted files of one name and no live one, in every deletion order that operations can produce; then a restore by
+    name (file-system request, the completing folder restore) - the code reaches the first in DELETION order, and the completing
+    folder restore repairs it when a further deleted twin makes a second call. Same for folders of one name. Enumerated."""
+    D, A = "d0", "a.txt"
+    dele, crea, rest = ["fsdelfile", D, A], ["fscreatefile", D, A, "0"], ["fsrestfile", D, A]
+    two = [dele, crea, ["fileset", D, A, "CORRUPT"], dele]                      # deleted: first (initial health), second (CORRUPT)
+    flipped = two + [rest, dele]                                              # deletion order now: second, first
+    three = two + [crea, dele]
+    tails = [[rest], [rest, rest], [rest, dele, rest], [["folder", D, "restore"], ["tick"], ["tick"], ["tick"]],
+             [["folder", D, "restore"], ["tick"], rest, ["tick"], ["tick"]], [crea, rest, ["folder", D, "restore"], ["tick"], ["tick"]]]
+    fdel, fcre, frest = ["fsdelfolder", "d1"], ["fscreatefolder", "d1"], ["fsrestfolder", "d1"]
+    ftwo = [fdel, fcre, ["fscreatefile", "d1", "c.txt", "0"], fdel]
+    cases = []
+    for health in ("GOOD", "CORRUPT"):
+        for head in (two, flipped, three):
+            for tail in tails:
+                ops = [list(x) for x in head + tail] + [["osscan"], ["tick"], ["tick"]]
+                cases.append({"node": {"start": 0, "shut": 0, "scan": 1, "initial": "ON"}, "sw": [], "sysfix": {},
+                              "folders": [{"name": D, "scan": 2, "restore": 2, "files": [{"name": A, "health": health}]},
+                                          {"name": "d1", "scan": 2, "restore": 2, "files": [{"name": "b.txt", "health": health}]}],
+                              "ops": ops, "family": "twin-restore"})
+    for tail in ([frest], [frest, frest], [frest, fdel, frest], [frest, fdel, frest, ["tick"], ["tick"], ["tick"]],
+                 [fcre, frest, fdel, frest, frest]):
+        ops = [list(x) for x in ftwo + tail] + [["osscan"], ["tick"], ["tick"]]
+        cases.append({"node": {"start": 0, "shut": 0, "scan": 1, "initial": "ON"}, "sw": [], "sysfix": {},
+                      "folders": [{"name": D, "scan": 2, "restore": 2, "files": [{"name": A, "health": "GOOD"}]},
+                                  {"name": "d1", "scan": 2, "restore": 2, "files": [{"name": "b.txt", "health": "CORRUPT"}]}],
+                      "ops": ops, "family": "twin-restore"})
+    return cases
